@@ -64,7 +64,7 @@ class WObj:
                     global_start_sample=start, sample_rate_numerator=n, sample_rate_denominator=d,
                     max_chunk_size=max_chunk if max_chunk is not None else self.ex.fresh('max_chunk'),
                     is_continuous=is_continuous, needs_chunking=needs_chunking, chunk_size=0, dtype_id=7001,
-                    complex_dtype_id=7004 if is_complex else 0, global_index=0, present_seq=M(32) - 1, dataset_index=0, dataset_avail=0,
+                    complex_dtype_id=(7004 if is_complex else 0) if isinstance(is_complex, int) else 7004, global_index=0, present_seq=M(32) - 1, dataset_index=0, dataset_avail=0,
                     block_index=0, dataset=0, dataspace=0, filespace=0, memspace=0, hdf5_file=0, dataset_prop=7002, index_dataset=0,
                     index_prop=7003, next_index_avail=0, marching_dots=0, init_utc_timestamp=self.ex.fresh('init_ts'),
                     last_utc_timestamp=0, has_failure=0)
